@@ -160,8 +160,7 @@ def run(ctx):
         ctx.count()
         ctx.nontriv(("r", t))
     ctx.sample({"random_ops": cases[-1]["ops"][:12]})
-    for pt, pc in zip(chunks(traces, 3000), chunks(cases, 3000)):
-        ctx.validate(SPEC, "DispatcherTrace", "DispatcherTrace.cfg", pt, cases=pc, name="recorded-sequences")
+    ctx.validate(SPEC, "DispatcherTrace", "DispatcherTrace.cfg", traces, cases=cases, name="recorded-sequences")
 
 
 def nontrivial(b):
